@@ -361,6 +361,7 @@ func (s *sess) byContent(e *Event, r io.Reader, idx int) error {
 		e.ReadErr = "stopped"
 	}
 	b.mu.Unlock()
+	b.gate(fmt.Sprintf("m%d:return", idx))
 	if rerr != nil && rerr != io.EOF {
 		return rerr
 	}
